@@ -1050,8 +1050,10 @@ class OdeSystem(object):
                         try:
                             active_events, roots, end_int, evs = handle_events(sol_tuple, events, self.constants, direction, is_terminal, (requires_dstate,))
                         except BaseException:
-                            # the step is not recorded when event handling fails: drop its interpolant as well
-                            self.__sol.remove_interpolant(-1 if dTime >= 0 else 0)
+                            # the step is not recorded when event handling fails: drop its interpolant(s) as well
+                            # (a Richardson-extrapolated step contributes one piece per sub-step)
+                            for _ in range(len(self.__sol) - __pre_length):
+                                self.__sol.remove_interpolant(-1 if dTime >= 0 else 0)
                             raise
 
                         if self.counter + len(roots) + 1 >= len(self.__y):
@@ -1076,7 +1078,8 @@ class OdeSystem(object):
                         if end_int:
                             # the step that crossed the terminal event is rolled back and replaced by the
                             # sub-steps landing on the event: its interpolant must go as well
-                            self.__sol.remove_interpolant(-1 if dTime >= 0 else 0)
+                            for _ in range(len(self.__sol) - __pre_length):
+                                self.__sol.remove_interpolant(-1 if dTime >= 0 else 0)
                             self.integrate(roots[-1])
                             self.__int_status = 2
                         else:
